@@ -119,6 +119,33 @@ def use(kind, name):
     return ["null", name]
 
 
+def default_of_type(j, es, real, kinds):
+    """A complete default value for per-file type j (records: every field, recursively through 'field' references)."""
+    if kinds[j] == "enum":
+        return "S%d" % j
+    if kinds[j] == "fixed":
+        return "\u0001" * (j + 1)
+    out = {"own%d" % j: j}
+    for (e, r) in zip(es, real):
+        if e[0] != j:
+            continue
+        kind, qualified, twice = r
+        out["e%d_%d" % e] = default_of_use(kind, e[1], es, real, kinds)
+        if twice:
+            out["e%d_%d_again" % e] = [] if kind != "array" else {}
+    return out
+
+
+def default_of_use(kind, j, es, real, kinds):
+    if kind == "field" or kind == "union-first":
+        return default_of_type(j, es, real, kinds)
+    if kind == "array":
+        return [default_of_type(j, es, real, kinds)]
+    if kind == "map":
+        return {"k": default_of_type(j, es, real, kinds)}
+    return None  # ["null", X] and ["null", X, "string"]
+
+
 def build_files(n, es, kinds, ns, real, spelling="attribute"):
     files = {}
     for i in range(n):
@@ -128,20 +155,28 @@ def build_files(n, es, kinds, ns, real, spelling="attribute"):
                 d["name"] = ns[i] + "." + TNAMES[i]  # the full name spelled in "name", no namespace attribute
             else:
                 d["namespace"] = ns[i]
+        # attribute text that looks like comments or globs to a careless pre-processor: it is JSON string content
+        d["doc"] = "see http://example.org/%d//x /* not a comment */ logs/*.gz" % i
         if kinds[i] == "enum":
             d["symbols"] = ["S%d" % i, "Z"]
         elif kinds[i] == "fixed":
             d["size"] = i + 1
         else:
-            fields = [{"name": "own%d" % i, "type": "int"}]
+            fields = [{"name": "own%d" % i, "type": "int", "doc": "tmp/*/cache // %d" % i}]
             for (e, r) in zip(es, real):
                 if e[0] != i:
                     continue
                 kind, qualified, twice = r
                 nm = ref_name(e[0], e[1], ns, qualified)
-                fields.append({"name": "e%d_%d" % e, "type": use(kind, nm)})
+                f = {"name": "e%d_%d" % e, "type": use(kind, nm), "doc": "*/ closing first, then /* opening"}
+                if spelling == "with-defaults":
+                    f["default"] = default_of_use(kind, e[1], es, real, kinds)
+                fields.append(f)
                 if twice:
-                    fields.append({"name": "e%d_%d_again" % e, "type": use("array" if kind != "array" else "map", nm)})
+                    f2 = {"name": "e%d_%d_again" % e, "type": use("array" if kind != "array" else "map", nm)}
+                    if spelling == "with-defaults":
+                        f2["default"] = [] if kind != "array" else {}
+                    fields.append(f2)
             d["fields"] = fields
         files[full(i, ns)] = d
     return files
@@ -238,7 +273,7 @@ def check_repo(fa, res, tmpdir, n, es, kinds, ns, real, seen, tier, layout="plai
     from fastavro._schema_common import UnknownType
     from fastavro.repository.base import SchemaRepositoryError
 
-    files = build_files(n, es, kinds, ns, real, "dotted-name" if layout == "dotted-name" else "attribute")
+    files = build_files(n, es, kinds, ns, real, layout if layout in ("dotted-name", "with-defaults") else "attribute")
     root = full(0, ns)
     ident = json.dumps([n, es, kinds, ns, real, layout])
     if ident in seen:
@@ -393,6 +428,9 @@ def run_unit(unit, tier):
             if any(ns):
                 for real in reals[:40:3]:
                     check_repo(fa, res, tmpdir, n, es, kinds, ns, real, seen, tier, layout="dotted-name")
+            if es:
+                for real in reals[:60:2]:
+                    check_repo(fa, res, tmpdir, n, es, kinds, ns, real, seen, tier, layout="with-defaults")
     finally:
         shutil.rmtree(tmpdir, ignore_errors=True)
     res.distinct = len(seen)
